@@ -21,7 +21,17 @@ def classify(finding, case):
     if finding["cls"] == "caller-prefix-looks-generated":
         m = mapping_of(case.get("mapping")) or {}
         return any(p and GENLIKE.match(p) for p in m)
+    if finding["cls"] == "attribute-named-xmlns":
+        return case.get("route") == "api" and has_xmlns_attr(tuple_tree(case["tree"]))
     return False
+
+
+def has_xmlns_attr(t):
+    """an attribute with local name 'xmlns' in no namespace, or any attribute in the xmlns namespace"""
+    if t[0] != "tag":
+        return False
+    return any((a[0] == "" and a[1] == "xmlns") or a[0] == "http://www.w3.org/2000/xmlns/" for a in t[3]) \
+        or any(has_xmlns_attr(c) for c in t[4])
 
 
 def tuple_tree(t):
@@ -160,7 +170,7 @@ def check_cases(ctx, cases):
         terms.append("enc_res_str (serialize %s %s %s)" % (caller, ordt, t))
         terms.append("enc_bfs (bfs_of %s)" % t)
         # the property's clauses, evaluated in Coq on the implementation's own table and declarations
-        if o["pref"][0] == "ok" and o["ser"][0] == "ok":
+        if o["pref"][0] == "ok" and o["ser"][0] == "ok" and not has_xmlns_attr(o["t"]):
             tags = start_tags(o["ser"][1])
             decl = [(a, v) for a, v in (tags[0][1] if tags else []) if a == "xmlns" or a.startswith("xmlns:")]
             nss = sorted(set(n for l in o["ord"] for n in l))
@@ -213,7 +223,7 @@ def check_cases(ctx, cases):
             exp = [0] + [ord(x) for x in sv]
             tags = start_tags(sv)
             decl = [(a, v) for a, v in (tags[0][1] if tags else []) if a == "xmlns" or a.startswith("xmlns:")]
-            if v_decl != enc_pairs(decl):
+            if v_decl != enc_pairs(decl) and not has_xmlns_attr(o["t"]):
                 ctx.mismatch("declared_attributes vs the root's xmlns attributes", {"case": case, "impl": decl})
         else:
             exp = {"ValueError": [1], "AssertionError": [2], "InvalidCodePath": [5]}.get(sv, [3])
@@ -237,6 +247,9 @@ def check_cases(ctx, cases):
 
 def replay_open(f):
     w = f["witness"]
+    if f["cls"] == "attribute-named-xmlns":
+        o = observe({"route": "api", "tree": w["tree"], "mapping": w["mapping"]})
+        return o["ser"][0] == "ok" and bool(direct_clauses(o))
     o = observe({"route": "parse", "src": w["src"], "mapping": w["mapping"]})
     return o["ser"][0] == "exc" and o["ser"][1] == "AssertionError"
 
@@ -274,13 +287,13 @@ def run(ctx, args):
         if ctx.rng.random() < 0.6:
             cases.append({"route": "parse", "src": gen_src(ctx.rng, rich=False), "mapping": m})
         else:
-            cases.append({"route": "api", "tree": gen_api_tree(ctx.rng), "mapping": m})
+            cases.append({"route": "api", "tree": gen_api_tree(ctx.rng, xmlns_attr=ctx.rng.random() < 0.08), "mapping": m})
     check_cases(ctx, cases)
     return ctx.finish(
         rule="(document, caller mapping) pairs: documents parsed from generated XML with nested prefix/default declarations "
              "(prefixes p, q, svg, ns0, ns1; xmlns='' below a default; xml: attributes) or built through the API with any "
              "namespace on any element/attribute, depth <= 3; mappings: None, {}, default as None or '', prefixes incl. "
-             "ns0/ns1/ns2/ns00 (colliding with generated ones), common prefixes remapped, refused ones (xml, duplicates). "
+             "ns0/ns1/ns2/ns00 (colliding with generated ones); 8% of the API trees carry an attribute named xmlns, common prefixes remapped, refused ones (xml, duplicates). "
              "Non-trivial = at least two namespaces in the tree or a non-empty accepted mapping; distinct by (tree, mapping).",
         replay_open=replay_open)
 
